@@ -87,6 +87,19 @@ def resolve_renames(prog):
             # the same parameter types in another order (parameters reordered along with the rename)
             want = _sig_bag(sig)
             cands = [n for n in new if par(n) == parent and _sig_bag(prog.fns[n].get("sig")) == want and n not in out.values()]
+        if len(cands) > 1:
+            # several new functions of this signature (two siblings renamed together): the one whose name is clearly the
+            # closest to the old name, if it is not closer still to another missing function of the same signature
+            import difflib
+            base = name.rsplit("::", 1)[-1]
+            sim = lambda a, b: difflib.SequenceMatcher(None, a, b).ratio()
+            ranked = sorted(cands, key=lambda c: -sim(base, c.rsplit("::", 1)[-1]))
+            best, second = ranked[0], ranked[1]
+            sb, ss = sim(base, best.rsplit("::", 1)[-1]), sim(base, second.rsplit("::", 1)[-1])
+            rivals = [o for o in known if o != name and o not in prog.fns and par(o) == parent and "{closure" not in o and
+                      (known_sig(o) == sig or _sig_bag(known_sig(o)) == _sig_bag(sig))]
+            if sb >= 0.6 and sb - ss >= 0.1 and all(sim(o.rsplit("::", 1)[-1], best.rsplit("::", 1)[-1]) < sb for o in rivals):
+                cands = [best]
         if len(cands) == 1:
             out[name] = cands[0]
     for old_, new_ in out.items():
